@@ -1,21 +1,33 @@
 /* VERIF-UNIT
 {
  "name": "bb_u32_list_add",
- "props": ["C02", "C06"],
+ "props": [
+  "C02",
+  "C06"
+ ],
  "level": "U",
  "tier": "wip",
  "harness": "h_bb_add",
- "enforce": ["ext2fs_u32_list_add"],
+ "enforce": [
+  "ext2fs_u32_list_add"
+ ],
  "loop_contracts": true,
- "defines": ["EXT2_CUSTOM_MEMORY_ROUTINES"],
+ "defines": [
+  "EXT2_CUSTOM_MEMORY_ROUTINES"
+ ],
  "unwind": 10,
  "unwind_reason": "no loop of the real code is unwound (in-place loop contracts); 10 covers the loops of the contract-instrumentation library and the 7 ghost indices of the realloc specification",
- "functions": ["lib/ext2fs/badblocks.c:ext2fs_u32_list_add"],
- "assumes": ["num <= size <= 2^30 (int fields; size += 100 must not overflow)",
-	     "well_formed (strictly ascending) is a universally quantified precondition; it enters as INSTANCES: at the last entry, at the lower bounds of the new key and of the ghost view key, at the ghost index and its neighbours, and at every entry the linear search looks at (ghost statement VERIF_GHOST_U32_LIST_ADD_PROBE = assume of the instance at i; the list has not been written before, a realloc keeps the contents)",
-	     "realloc by a ghost-index specification (new object, contents kept at the ghost indices, may fail)",
-	     "needs the loop anchors of hooks-pending/ds.diff in lib/ext2fs/badblocks.c"],
- "native": false
+ "functions": [
+  "lib/ext2fs/badblocks.c:ext2fs_u32_list_add"
+ ],
+ "assumes": [
+  "num <= size <= 2^30 (int fields; size += 100 must not overflow)",
+  "well_formed (strictly ascending) is a universally quantified precondition; it enters as INSTANCES: at the last entry, at the lower bounds of the new key and of the ghost view key, at the ghost index and its neighbours, and at every entry the linear search looks at (ghost statement VERIF_GHOST_U32_LIST_ADD_PROBE = assume of the instance at i; the list has not been written before, a realloc keeps the contents)",
+  "realloc by a ghost-index specification (new object, contents kept at the ghost indices, may fail)",
+  "needs the loop anchors of hooks-pending/ds.diff in lib/ext2fs/badblocks.c"
+ ],
+ "native": false,
+ "backend": "cadical"
 }
 */
 /*
